@@ -3,10 +3,14 @@
 //! Per input: the real fix loop is run with the hook installed and every event is recorded with
 //! trees interned to numbers (structure + positions), giving the oracle tables the Gallina loop
 //! model is replayed on (group `loop`: which batches were accepted, every pass end, the final
-//! tree must be predicted exactly). Direct observations: fix is deterministic (repeat in-process),
-//! a file without violations is returned byte-identical, and with layout rules fix(fix x) = fix x
-//! and lint(fix x) reports no fixable violation. The three hypotheses of the idempotence theorem
-//! are monitored per input.
+//! tree must be predicted exactly). The mask step of the loop is tied separately (group `mask`): the
+//! harness crawls every rule on the initial tree itself and asks the file's IgnoreMask about every
+//! result; from that table the model predicts what lint reports per rule and which rule produces the
+//! first batch. Direct observations: fix is deterministic (repeat in-process), a file without
+//! violations is returned byte-identical (also when it is clean only because noqa directives silence
+//! its violations), the first batch of a fix run comes from a rule lint reports, and with the layout
+//! rules selected (alone, or mixed with rewriting rules in the classes built for that) fix(fix x) = fix x.
+//! The three hypotheses of the idempotence theorem are monitored per input.
 use std::cell::RefCell;
 use std::collections::HashMap;
 use std::rc::Rc;
@@ -15,6 +19,7 @@ use serde_json::{Value, json};
 use sqruff_lib::core::config::FluffConfig;
 use sqruff_lib::core::linter::core::{Linter, verif_hook};
 use sqruff_lib::core::rules::base::LintPhase;
+use sqruff_lib::core::rules::noqa::IgnoreMask;
 use sqruff_lib_core::parser::segments::base::{ErasedSegment, Tables};
 
 use crate::c04::{fnv, perturb};
@@ -31,6 +36,33 @@ const RULESETS: &[(&str, bool)] = &[
     ("AL01,AL02,AL05,ST05,ST06,CV06,LT01,LT02", false),
 ];
 const EXTRA: &[&str] = &["", "max_line_length = 60\n", "max_line_length = 120\n"];
+/// Selections that contain every layout rule *and* rules that rewrite code (used by the classes added for the
+/// interplay "a non-layout rule edits a token in place, a layout rule has to react in the same fix run").
+const CONVENTION: &str = "LT01,LT02,LT03,LT04,LT05,LT06,LT07,LT08,LT09,LT10,LT11,LT12,LT13,CV01,CV02,CV03,CV04,CV05,CV06,CV07,CV08,CV09,CV10,CV11";
+const REWRITERS: &str = "LT01,LT02,LT03,LT04,LT05,LT06,LT07,LT08,LT09,LT10,LT11,LT12,LT13,AL01,AL02,AL05,AL09,AM01,AM02,CP01,CP02,CP03,CP04,CP05,CV02,CV05,CV11,ST01,ST02,ST08,ST09,RF03";
+const MIXED: &[&str] = &["core", CONVENTION, "all", REWRITERS];
+
+/// How the text of an item is derived (with the item's own linter) before it is explored.
+#[derive(Clone, Copy, PartialEq, Debug)]
+enum Derive {
+    None,
+    /// `-- noqa: disable=all` in front of the file
+    NoqaAll,
+    /// `/* noqa: disable=all */` in front of the file
+    NoqaAllBlock,
+    /// ` -- noqa` at the end of every line lint reports
+    NoqaBare,
+    /// ` -- noqa: <codes>` at the end of every line lint reports (the codes reported on that line)
+    NoqaCodes,
+    /// `-- noqa: disable=<codes>` in front, `-- noqa: enable=<codes>` behind (the codes lint reports)
+    NoqaRange,
+    /// as NoqaCodes but only every other reported line is silenced: the file stays unclean, part of the violations are masked
+    NoqaPartial,
+    /// `max_line_length` := (length of the k-th line on which lint reports a violation of a non-layout rule (the `fixable`
+    /// flag is not looked at: CV05, ST01, … rewrite code without declaring themselves fix-compatible),
+    /// or of the longest line when there is none) + d
+    LimitAtEdited { d: i64, k: usize, only_edited: bool },
+}
 
 struct Item {
     cls: &'static str,
@@ -39,9 +71,135 @@ struct Item {
     layout: bool,
     extra: String,
     sql: String,
+    derive: Derive,
 }
 fn item_json(it: &Item) -> Value {
     json!({"cls":it.cls,"dialect":it.dialect,"rules":it.rules,"layout":it.layout,"extra":it.extra,"sql":it.sql})
+}
+
+/// (line, code) of everything lint reports; code "" for rule-less violations
+fn reported(linter: &Linter, sql: &str) -> Option<Vec<(usize, &'static str, bool)>> {
+    let l = catch(|| linter.lint_string(sql, None, false)).ok()?;
+    Some(l.violations.iter().map(|v| (v.line_no, v.rule.as_ref().map(|r| r.code).unwrap_or(""), v.fixable)).collect())
+}
+
+/// Own light disturbance of layout and capitalisation for the classes added later (independent of `c04::perturb`, so
+/// that their inputs do not move when that one is changed): double some spaces, move some commas, flip the case of
+/// some words; string literals and comments are left alone.
+fn ruffle(rng: &mut Rng, text: &str) -> String {
+    if !text.is_ascii() {
+        return text.to_string();
+    }
+    let b = text.as_bytes();
+    let mut out = String::with_capacity(b.len() + 32);
+    let (mut i, mut quote, mut comment) = (0usize, 0u8, false);
+    while i < b.len() {
+        let c = b[i];
+        if comment {
+            comment = c != b'\n';
+        } else if quote != 0 {
+            if c == quote {
+                quote = 0;
+            }
+        } else if c == b'\'' || c == b'"' || c == b'`' {
+            quote = c;
+        } else if (c == b'-' && b.get(i + 1) == Some(&b'-')) || c == b'#' || (c == b'/' && b.get(i + 1) == Some(&b'*')) {
+            comment = true;
+        } else if c == b' ' && rng.chance(1, 7) {
+            out.push_str(["  ", "   ", "\n"][rng.below(3)]);
+            i += 1;
+            continue;
+        } else if c == b',' && rng.chance(1, 4) {
+            out.push_str([" ,", ",  ", ",\n"][rng.below(3)]);
+            i += 1;
+            continue;
+        } else if c.is_ascii_alphabetic() && (i == 0 || !(b[i - 1].is_ascii_alphanumeric() || b[i - 1] == b'_')) && rng.chance(1, 8) {
+            let mut j = i;
+            while j < b.len() && (b[j].is_ascii_alphanumeric() || b[j] == b'_') {
+                j += 1;
+            }
+            let w = &text[i..j];
+            out.push_str(&if rng.chance(1, 2) { w.to_ascii_uppercase() } else { w.to_ascii_lowercase() });
+            i = j;
+            continue;
+        }
+        out.push(c as char);
+        i += 1;
+    }
+    out
+}
+
+fn append_to_line(sql: &str, line_no: usize, what: &str) -> String {
+    let mut out = String::with_capacity(sql.len() + what.len());
+    for (i, l) in sql.split_inclusive('\n').enumerate() {
+        if i + 1 == line_no {
+            let body = l.trim_end_matches(['\n', '\r']);
+            out.push_str(body);
+            out.push_str(what);
+            out.push_str(&l[body.len()..]);
+        } else {
+            out.push_str(l);
+        }
+    }
+    if line_no > sql.split_inclusive('\n').count() {
+        out.push_str(what);
+    }
+    out
+}
+
+/// Silence what lint reports with noqa directives (never looks at what fix does).
+/// The line-length limit for `Derive::LimitAtEdited` (from what lint reports with the default limit).
+fn derive_limit(linter: &Linter, sql: &str, d: i64, k: usize) -> Option<(i64, bool)> {
+    let rep = reported(linter, sql)?;
+    let lens: Vec<usize> = sql.lines().map(|l| l.chars().count()).collect();
+    let edited: std::collections::BTreeSet<usize> = rep.iter().filter(|r| !r.1.is_empty() && !r.1.starts_with("LT") && r.0 >= 1 && r.0 <= lens.len()).map(|r| r.0).collect();
+    let edited: Vec<usize> = edited.into_iter().collect();
+    let (l, on_edit) = if edited.is_empty() { (*lens.iter().max()?, false) } else { (lens[edited[k % edited.len()] - 1], true) };
+    Some((l as i64 + d, on_edit))
+}
+
+fn derive_sql(linter: &Linter, sql: &str, d: Derive) -> Option<String> {
+    match d {
+        Derive::None | Derive::LimitAtEdited { .. } => Some(sql.to_string()),
+        Derive::NoqaAll => Some(format!("-- noqa: disable=all\n{}", sql)),
+        Derive::NoqaAllBlock => Some(format!("/* noqa: disable=all */\n{}", sql)),
+        Derive::NoqaRange => {
+            let rep = reported(linter, sql)?;
+            let codes: std::collections::BTreeSet<&str> = rep.iter().map(|r| r.1).filter(|c| !c.is_empty()).collect();
+            if codes.is_empty() {
+                return Some(sql.to_string());
+            }
+            let codes = codes.into_iter().collect::<Vec<_>>().join(",");
+            let nl = if sql.ends_with('\n') { "" } else { "\n" };
+            Some(format!("-- noqa: disable={}\n{}{}-- noqa: enable={}\n", codes, sql, nl, codes))
+        }
+        Derive::NoqaBare | Derive::NoqaCodes | Derive::NoqaPartial => {
+            let mut cur = sql.to_string();
+            // a directive can itself move a violation (line length, trailing comment): a few rounds
+            for round in 0..4 {
+                let rep = reported(linter, &cur)?;
+                let mut by_line: std::collections::BTreeMap<usize, std::collections::BTreeSet<&str>> = Default::default();
+                for (l, c, _) in &rep {
+                    by_line.entry(*l).or_default().insert(*c);
+                }
+                if by_line.is_empty() || (d == Derive::NoqaPartial && round > 0) {
+                    break;
+                }
+                for (n, (l, codes)) in by_line.iter().enumerate() {
+                    if d == Derive::NoqaPartial && n % 2 == 1 {
+                        continue;
+                    }
+                    let what = if d == Derive::NoqaBare || codes.contains("") || round > 1 {
+                        " -- noqa".to_string()
+                    } else {
+                        format!(" -- noqa: {}", codes.iter().cloned().collect::<Vec<_>>().join(","))
+                    };
+                    cur = append_to_line(&cur, *l, &what);
+                }
+            }
+            Some(cur)
+        }
+    }
 }
 fn cfg(it: &Item) -> String {
     format!("[sqruff]\ndialect = {}\nrules = {}\n{}", it.dialect, it.rules, it.extra)
@@ -155,23 +313,84 @@ fn fix_rec(linter: &Linter, sql: &str) -> Result<Run, String> {
     Ok(Run { rec, fixed, source })
 }
 
+/// The oracle answers of the mask step of the loop on the initial tree: per rule (registry order) the raw results of
+/// `Rule::crawl` as (is_masked by the file's IgnoreMask, has fixes). `None` when something panics.
+fn mask_table(linter: &Linter, sql: &str) -> Option<Vec<Vec<(bool, bool)>>> {
+    let tables = Tables::default();
+    let parsed = catch(|| linter.parse_string(&tables, sql, None)).ok()?.ok()?;
+    let tree = parsed.tree.clone()?;
+    let disable_noqa = linter.config().get("disable_noqa", "core").as_bool().unwrap_or(false);
+    let mask = if disable_noqa { None } else { Some(catch(|| IgnoreMask::from_tree(&tree)).ok()?.0) };
+    let mut tab = vec![];
+    for rule in linter.rules() {
+        let errs = catch(|| rule.crawl(&tables, linter.config().get_dialect(), &parsed.templated_file, tree.clone(), linter.config())).ok()?;
+        // a result without a rule is the marker `crawl` leaves when the rule body panicked (C03): not a result of the rule
+        tab.push(errs.iter().filter(|e| e.rule.is_some()).map(|e| (mask.as_ref().is_some_and(|m| m.is_masked(e)), !e.fixes.is_empty())).collect());
+    }
+    Some(tab)
+}
+
 type Linters = HashMap<String, Linter>;
 
-fn run_one(ls: &mut Linters, it: &Item, out: &mut Buf) {
-    let input = item_json(it);
-    let key = cfg(it);
-    if !ls.contains_key(&key) {
-        match catch(|| Linter::new(FluffConfig::from_source(&key, None), None, None, true)) {
-            Ok(l) => {
-                ls.insert(key.clone(), l);
-            }
-            Err(_) => {
-                out.count("config_rejected", 1);
-                return;
-            }
+/// linters are big (a dialect's grammar each): a bounded per-thread cache
+fn get_linter(ls: &mut Linters, key: &str, out: &mut Buf) -> bool {
+    if ls.contains_key(key) {
+        return true;
+    }
+    if ls.len() >= 24 {
+        ls.clear();
+    }
+    match catch(|| Linter::new(FluffConfig::from_source(key, None), None, None, true)) {
+        Ok(l) => {
+            ls.insert(key.to_string(), l);
+            true
+        }
+        Err(_) => {
+            out.count("config_rejected", 1);
+            false
         }
     }
+}
+
+fn run_one(ls: &mut Linters, it: &Item, out: &mut Buf) {
+    let key = cfg(it);
+    if !get_linter(ls, &key, out) {
+        return;
+    }
+    // ---- derived classes: text / limit are built with this item's linter from what lint reports (never from what fix does)
+    let derived;
+    let mut masked_some = false;
+    let (it, key) = if it.derive == Derive::None {
+        (it, key)
+    } else {
+        let linter = &ls[&key];
+        let before = reported(linter, &it.sql);
+        let Some(sql) = derive_sql(linter, &it.sql, it.derive) else {
+            out.count("skipped_panic_or_no_tree (C03)", 1);
+            return;
+        };
+        let mut extra = it.extra.clone();
+        if let Derive::LimitAtEdited { d, k, only_edited } = it.derive {
+            match derive_limit(linter, &it.sql, d, k) {
+                Some((l, on_edit)) if l >= 12 && (on_edit || !only_edited) => {
+                    extra = format!("max_line_length = {}\n", l);
+                    if on_edit {
+                        out.count("limit_put_on_a_line_a_rewriting_rule_reports_on", 1);
+                    }
+                }
+                _ => return,
+            }
+        }
+        masked_some = before.map(|b| !b.is_empty()).unwrap_or(false);
+        derived = Item { cls: it.cls, dialect: it.dialect.clone(), rules: it.rules.clone(), layout: it.layout, extra, sql, derive: Derive::None };
+        let key = cfg(&derived);
+        if !get_linter(ls, &key, out) {
+            return;
+        }
+        (&derived, key)
+    };
     let linter = &ls[&key];
+    let input = item_json(it);
     out.count("inputs", 1);
     let h = fnv(&format!("{}|{}", key, it.sql));
     let r1 = match fix_rec(linter, &it.sql) {
@@ -230,7 +449,41 @@ fn run_one(ls: &mut Linters, it: &Item, out: &mut Buf) {
 
     // ---- direct: clean files are left alone
     let lint0 = catch(|| linter.lint_string(&it.sql, None, false));
+    if let (Ok(l0), Some(tab)) = (&lint0, mask_table(linter, &it.sql)) {
+        // ---- correspondence: the mask step of the loop (group `mask`): from the raw crawl results and the mask's answers
+        // the model predicts how many violations of each rule lint reports and which rule produces the first batch
+        let reported: Vec<usize> = linter.rules().iter().map(|r| l0.violations.iter().filter(|v| v.rule.as_ref().map(|x| x.code) == Some(r.code())).count()).collect();
+        let first = rec.batches.first().map(|b| b.2);
+        let args = g_list(tab.iter().map(|es| g_list(es.iter().map(|(m, f)| g_tuple(&[g_bool(*m), g_bool(*f)])))));
+        let exp = g_tuple(&[g_list(reported.iter().map(|n| g_n(*n))), g_opt(first.map(g_n))]);
+        let n_masked: usize = tab.iter().map(|es| es.iter().filter(|e| e.0).count()).sum();
+        if n_masked > 0 {
+            out.count("runs_with_masked_results", 1);
+            if tab.iter().any(|es| es.iter().any(|e| e.0 && e.1)) {
+                out.count("runs_with_masked_results_that_carry_fixes", 1);
+            }
+        }
+        out.case("mask", it.cls, n_masked > 0, args, exp, json!({"input":input,"reported":reported,"first_batch_rule":first,"masked_results":n_masked}));
+    }
     if let Ok(l0) = &lint0 {
+        // the loop acts on what lint reports and on nothing else: the first batch of a fix run is computed on the tree lint
+        // saw, so its rule must be one lint reports a violation of (with or without noqa directives in the file)
+        if let Some(b) = rec.batches.first() {
+            let code = linter.rules()[b.2].code();
+            let ok = l0.violations.iter().any(|v| v.rule.as_ref().map(|r| r.code) == Some(code));
+            out.direct("first-batch-reported", ok, &format!("c17-unreported-fix-{:016x}", h), &format!("the first batch of fixes of the fix run comes from {} but lint reports no {} violation on this input (reported: {:?})", code, code, l0.violations.iter().filter_map(|v| v.rule.as_ref().map(|r| r.code)).collect::<std::collections::BTreeSet<_>>()), input.clone());
+        }
+        if it.cls.starts_with("noqa") {
+            out.count("noqa_inputs", 1);
+            if l0.violations.is_empty() {
+                out.count("noqa_inputs_lint_clean", 1);
+                if masked_some {
+                    out.count("noqa_inputs_lint_clean_only_because_violations_are_masked", 1);
+                }
+            } else if masked_some {
+                out.count("noqa_inputs_partly_masked", 1);
+            }
+        }
         if l0.violations.is_empty() {
             out.count("clean_inputs", 1);
             let ok = r1.fixed == r1.source;
@@ -266,6 +519,11 @@ fn run_one(ls: &mut Linters, it: &Item, out: &mut Buf) {
                 out.hyp("H_lossless: the re-parsed fixed text reads as the fixed text", "diagnostic", h_lossless, json!({"input":input}));
                 out.hyp("H_converged: both phases exit by no-change and the second run has no batch", "diagnostic", h_conv, json!({"input":input}));
                 let cause = if !h_conv { "H_converged fails" } else if !h_reparse { "H_reparse fails" } else { "hypotheses hold" };
+                let second: std::collections::BTreeSet<&str> = r3.rec.batches.iter().filter(|b| b.3).map(|b| linter.rules()[b.2].code()).collect();
+                let cause = if it.rules.starts_with(LAYOUT) && it.rules.len() == LAYOUT.len() || second.is_empty() { cause.to_string() } else { format!("{}; the second run applies fixes of {:?}", cause, second) };
+                if !it.rules.starts_with("LT") || it.rules.len() > LAYOUT.len() {
+                    out.count("idempotence_checked_on_mixed_selection (layout + rewriting rules)", 1);
+                }
                 out.direct("idempotent", idem, &format!("c17-nonidem-{:016x}", h), &format!("fix(fix x) != fix x ({}): fix x = {:?} fix(fix x) = {:?}", cause, trunc(&r1.fixed, 300), trunc(&r3.fixed, 300)), input.clone());
                 if idem && h_conv && h_reparse {
                     out.count("idempotent_with_all_hypotheses", 1);
@@ -311,6 +569,7 @@ pub fn main(args: &Args) {
             layout: v["layout"].as_bool().unwrap_or(false),
             extra: v["extra"].as_str().unwrap_or("").into(),
             sql: v["sql"].as_str().unwrap().into(),
+            derive: Derive::None,
         });
     } else {
         for (rules, layout, sql) in [
@@ -319,7 +578,7 @@ pub fn main(args: &Args) {
             ("all", false, "SELECT a FROM tbl\n"),
             (LAYOUT, true, "SELECT a FROM tbl\r\n"),
         ] {
-            items.push(Item { cls: "regression", dialect: "ansi".into(), rules: rules.into(), layout, extra: String::new(), sql: sql.into() });
+            items.push(Item { cls: "regression", dialect: "ansi".into(), rules: rules.into(), layout, extra: String::new(), sql: sql.into(), derive: Derive::None });
         }
         let corpus = corpus();
         let thorough = args.thorough();
@@ -332,7 +591,7 @@ pub fn main(args: &Args) {
             for j in 0..k {
                 let (rules, layout) = RULESETS[(i + j) % RULESETS.len()];
                 let extra = EXTRA[(i / 3 + j) % EXTRA.len()];
-                items.push(Item { cls: "corpus", dialect: f.dialect.clone(), rules: rules.into(), layout, extra: extra.into(), sql: f.text.clone() });
+                items.push(Item { cls: "corpus", dialect: f.dialect.clone(), rules: rules.into(), layout, extra: extra.into(), sql: f.text.clone(), derive: Derive::None });
             }
         }
         let n_pert = if thorough { 5000 } else { 500 };
@@ -344,15 +603,131 @@ pub fn main(args: &Args) {
             let (rules, layout) = RULESETS[rng.below(RULESETS.len())];
             let extra = EXTRA[rng.below(EXTRA.len())];
             let sql = perturb(&mut rng, &f.text);
-            items.push(Item { cls: "perturbed-corpus", dialect: f.dialect.clone(), rules: rules.into(), layout, extra: extra.into(), sql });
+            items.push(Item { cls: "perturbed-corpus", dialect: f.dialect.clone(), rules: rules.into(), layout, extra: extra.into(), sql, derive: Derive::None });
         }
         for (i, (_, s)) in rule_snippets().iter().enumerate() {
             if s.len() > 3000 || (!thorough && i % 3 != 0) {
                 continue;
             }
             let (rules, layout) = RULESETS[i % 2];
-            items.push(Item { cls: "rule-snippet", dialect: "ansi".into(), rules: rules.into(), layout, extra: String::new(), sql: s.clone() });
+            items.push(Item { cls: "rule-snippet", dialect: "ansi".into(), rules: rules.into(), layout, extra: String::new(), sql: s.clone(), derive: Derive::None });
         }
+        // ------------------------------------------------------------------------------------------------------
+        // Classes added after the seeded changes C17-1 / C17-2 (appended, with their own generator state, so that
+        // the inputs above — and the hashes of their known findings — stay what they were).
+        let snippets = rule_snippets();
+        let mut rng2 = Rng::new(0x17_0002);
+        // (a) noqa: files whose violations are silenced by directives. Clause 1 has to hold for them as for any file
+        // lint reports nothing on; the directives are derived from what lint reports, for every directive form.
+        const NOQA: &[Derive] = &[Derive::NoqaBare, Derive::NoqaCodes, Derive::NoqaAll, Derive::NoqaRange, Derive::NoqaAllBlock, Derive::NoqaPartial];
+        let sets: Vec<(&str, bool)> = RULESETS.iter().cloned().chain(MIXED.iter().map(|r| (*r, true))).collect();
+        let mut n = 0usize;
+        for (i, (_, s)) in snippets.iter().enumerate() {
+            if s.len() > 3000 || s.trim().is_empty() || (!thorough && i % 4 != 1) {
+                continue;
+            }
+            let (rules, layout) = sets[n % sets.len()];
+            let derive = NOQA[(n / sets.len() + n) % NOQA.len()];
+            n += 1;
+            items.push(Item { cls: "noqa-rule-snippet", dialect: "ansi".into(), rules: rules.into(), layout, extra: String::new(), sql: s.clone(), derive });
+        }
+        let n_noqa = if thorough { 2500 } else { 250 };
+        for k in 0..n_noqa {
+            let f = &corpus[rng2.below(corpus.len())];
+            if f.text.len() > 4000 {
+                continue;
+            }
+            let (rules, layout) = sets[rng2.below(sets.len())];
+            let extra = EXTRA[rng2.below(EXTRA.len())];
+            let sql = if k % 3 != 0 { ruffle(&mut rng2, &f.text) } else { f.text.clone() };
+            items.push(Item { cls: "noqa-corpus", dialect: f.dialect.clone(), rules: rules.into(), layout, extra: extra.into(), sql, derive: NOQA[rng2.below(NOQA.len())] });
+        }
+        // (b) the limit sits on a line: max_line_length is put at (length of a line of the input a rewriting rule reports
+        // on, else of the longest line) + d, d around 0, and the
+        // selection mixes the layout rules with rules that rewrite code, so that an edit of a few characters made by one
+        // rule during the run moves the line across the limit LT05 has to enforce in the same run.
+        // rule fixture snippets: every snippet of a non-layout rule R is explored with the layout rules + R (and with the
+        // broader mixes), the limit sitting on the lines R reports on
+        let ds: &[i64] = if thorough { &[0, -1, 1, 2, -2] } else { &[0] };
+        let mut n = 0usize;
+        for (i, (name, s)) in snippets.iter().enumerate() {
+            if s.len() > 2000 || s.trim().is_empty() {
+                continue;
+            }
+            let code = name.trim_end_matches(".yml");
+            let own = code.len() == 4 && !code.starts_with("LT") && code[2..].bytes().all(|b| b.is_ascii_digit());
+            let with_own = format!("{},{}", LAYOUT, code);
+            if own {
+                for d in ds {
+                    items.push(Item { cls: "limit-at-edited-line", dialect: "ansi".into(), rules: with_own.clone(), layout: true, extra: String::new(), sql: s.clone(), derive: Derive::LimitAtEdited { d: *d, k: n, only_edited: !thorough } });
+                    n += 1;
+                }
+            }
+            if thorough || i % 5 == 2 {
+                let d = [0i64, -1, 1, 2][n % 4];
+                items.push(Item { cls: "limit-at-edited-line", dialect: "ansi".into(), rules: MIXED[n % MIXED.len()].into(), layout: true, extra: String::new(), sql: s.clone(), derive: Derive::LimitAtEdited { d, k: n / 4, only_edited: false } });
+                n += 1;
+            }
+        }
+        let n_lim = if thorough { 3000 } else { 200 };
+        for _ in 0..n_lim {
+            let f = &corpus[rng2.below(corpus.len())];
+            if f.text.len() > 3000 {
+                continue;
+            }
+            let k = rng2.below(40);
+            let d = [0i64, 0, -1, 1, 2, -2][rng2.below(6)];
+            let sql = if rng2.chance(1, 3) { ruffle(&mut rng2, &f.text) } else { f.text.clone() };
+            items.push(Item { cls: "limit-at-edited-line-corpus", dialect: f.dialect.clone(), rules: MIXED[rng2.below(MIXED.len())].into(), layout: true, extra: String::new(), sql, derive: Derive::LimitAtEdited { d, k, only_edited: false } });
+        }
+        // (c) the existing mixed selections of the corpus, now also required to be stable when they contain layout rules
+        for (i, f) in corpus.iter().enumerate() {
+            if f.text.len() > 3000 || (!thorough && i % 8 != 3) || (thorough && i % 2 != 1) {
+                continue;
+            }
+            let extra = EXTRA[(i / 8) % EXTRA.len()];
+            items.push(Item { cls: "mixed-corpus", dialect: f.dialect.clone(), rules: MIXED[(i / 8) % MIXED.len()].into(), layout: true, extra: extra.into(), sql: f.text.clone(), derive: Derive::None });
+        }
+    }
+    // sqruff does not give back the memory of the trees it lints (about 1.5 MB per explored input): big item lists are
+    // worked through by child processes, a slice each, whose raw result lines the parent absorbs in item order.
+    const SLICE: usize = 4000;
+    if let Some(part) = args.flag("--part") {
+        let (k, n) = part.split_once('/').map(|(a, b)| (a.parse::<usize>().unwrap(), b.parse::<usize>().unwrap())).unwrap();
+        let per = items.len().div_ceil(n);
+        let mine: Vec<Item> = items.into_iter().skip(k * per).take(per).collect();
+        par_run(&mut out, &mine, Linters::new, |ls, it, buf| {
+            let mut b = Buf::default();
+            run_one(ls, it, &mut b);
+            buf.lines.extend(b.lines.into_iter().map(|l| json!({"t":"raw","v":l})));
+        });
+        out.finish();
+        return;
+    }
+    if items.len() > SLICE + SLICE / 2 {
+        let n = items.len().div_ceil(SLICE);
+        let exe = std::env::current_exe().expect("current_exe");
+        for k in 0..n {
+            let tmp = std::path::PathBuf::from(format!("{}.part{}", args.out.display(), k));
+            let st = std::process::Command::new(&exe)
+                .args(["c17", "--tier", &args.tier, "--seed", &args.seed.to_string(), "--part", &format!("{}/{}", k, n), "--out"])
+                .arg(&tmp)
+                .status()
+                .expect("spawn slice");
+            assert!(st.success(), "slice {}/{} of the c17 harness failed: {:?}", k, n, st);
+            let text = std::fs::read_to_string(&tmp).expect("slice output");
+            let mut buf = Buf::default();
+            for l in text.lines() {
+                let v: Value = serde_json::from_str(l).expect("slice line");
+                if v["t"] == "raw" {
+                    buf.lines.push(v["v"].clone());
+                }
+            }
+            out.absorb(buf);
+            let _ = std::fs::remove_file(&tmp);
+        }
+        out.finish();
+        return;
     }
     par_run(&mut out, &items, Linters::new, run_one);
     out.finish();
